@@ -32,7 +32,8 @@ and returns
                          from `MustConvert…`, `InterpreterError`): *not* wrapped in a `FilterError`,
 * `.panic` / `.unmodelled` as everywhere.
 
-Helpers: `ret v`, `retErr c`. A file that implements filters exports a
+Helpers: `ret v`, `retErr c`, and `FilterImpl.ofEager` (adapter for bodies of type
+`List GoVal → Res Cause GoVal`). A file that implements filters exports a
 `List (Bytes × FilterImpl)`; `Driver.lean` concatenates these lists (`lookupImpl`).
 
 ## What `applyFilter` does, in the order of the Go code
@@ -66,7 +67,7 @@ structure FilterSig where
   name : Bytes
   params : List Param
   hasErr : Bool := false
-  deriving Repr
+  deriving Repr, DecidableEq
 
 inductive Arg where
   | val (v : GoVal)
@@ -85,6 +86,25 @@ def Arg.call (a : Arg) (dflt : GoVal) : Res Cause GoVal :=
   | .fn none => .ok dflt
   | .fn (some r) => r
   | .val v => .ok v
+
+/-- Adapter for filter bodies written over plain values, `List GoVal → Res Cause GoVal`: the
+arguments are the converted values, receiver first; a default-function parameter contributes its
+constant (evaluated *eagerly* — a body that calls the function only on some paths, like `slice`,
+must be written against `Arg` directly) and is *dropped* when absent (such parameters are always
+last, so the body sees a shorter list and applies its own default). `returnsErr`: an `err c` of the
+body is the Go function's returned error (`(T, error)` filters); otherwise it is a recovered panic. -/
+def FilterImpl.ofEager (returnsErr : Bool) (f : List GoVal → Res Cause GoVal) : FilterImpl := fun args =>
+  let rec collect : List Arg → Res Cause (List GoVal)
+    | [] => .ok []
+    | .val v :: r => (collect r).bind fun vs => .ok (v :: vs)
+    | .fn none :: r => collect r
+    | .fn (some c) :: r => c.bind fun v => (collect r).bind fun vs => .ok (v :: vs)
+  (collect args).bind fun vs =>
+    match f vs with
+    | .ok v => ret v
+    | .err c => if returnsErr then retErr c else .err c
+    | .panic w => .panic w
+    | .unmodelled w => .unmodelled w
 
 /-! ## The registry of `filters.AddStandardFilters` -/
 
